@@ -1557,7 +1557,14 @@ def oracle_value_eq(site, vals):
             v = v[1]
             hops += 1
         vs.append(v)
-    a, b = vs
+    def strip(v, depth=8):
+        # `==` on references compares the pointees: drop reference wrappers at every level
+        while v is not None and v[0] == "refval":
+            v = v[1]
+        if v is not None and v[0] == "variant" and depth > 0:
+            return ("variant", v[1], tuple((i, strip(x, depth - 1)) for i, x in v[2]))
+        return v
+    a, b = strip(vs[0]), strip(vs[1])
 
     def known(v):
         if v is None:
